@@ -2,13 +2,16 @@
 EXTENDS Race, IOUtils
 VARIABLES tid, l
 Obs == JsonDeserialize(IOEnv.OBS_FILE)
-St(t, k) == Obs[t][k].state
 MonInit == /\ tid \in 1..Len(Obs) /\ l = 1
-           /\ pc = [w \in Writers |-> St(tid, 1).pc[w]] /\ saw = [w \in Writers |-> St(tid, 1).saw[w]]
-           /\ out = St(tid, 1).out /\ incache = St(tid, 1).incache /\ cb = St(tid, 1).cb
-           /\ ecb = St(tid, 1).ecb /\ hist = St(tid, 1).hist /\ act = Obs[tid][1].act
+           /\ LET o == Obs[tid][1].state IN
+              /\ pc = [w \in Writers |-> o.pc[w]] /\ saw = [w \in Writers |-> o.saw[w]]
+              /\ look = [w \in Writers |-> o.look[w]]
+              /\ out = o.out /\ incache = o.incache /\ cb = o.cb /\ ecb = o.ecb /\ hist = o.hist
+              /\ mutex = o.mutex /\ softsig = o.softsig /\ tcb = o.tcb /\ act = Obs[tid][1].act
 MonNext == /\ l < Len(Obs[tid]) /\ l' = l + 1 /\ tid' = tid
-           /\ pc' = [w \in Writers |-> St(tid, l + 1).pc[w]] /\ saw' = [w \in Writers |-> St(tid, l + 1).saw[w]]
-           /\ out' = St(tid, l + 1).out /\ incache' = St(tid, l + 1).incache /\ cb' = St(tid, l + 1).cb
-           /\ ecb' = St(tid, l + 1).ecb /\ hist' = St(tid, l + 1).hist /\ act' = Obs[tid][l + 1].act
+           /\ LET o == Obs[tid][l + 1].state IN
+              /\ pc' = [w \in Writers |-> o.pc[w]] /\ saw' = [w \in Writers |-> o.saw[w]]
+              /\ look' = [w \in Writers |-> o.look[w]]
+              /\ out' = o.out /\ incache' = o.incache /\ cb' = o.cb /\ ecb' = o.ecb /\ hist' = o.hist
+              /\ mutex' = o.mutex /\ softsig' = o.softsig /\ tcb' = o.tcb /\ act' = Obs[tid][l + 1].act
 =============================================================================
